@@ -93,23 +93,32 @@ _SUBST_LOOPS = {'ll_strlen.0': 16, 'll_memcpy.0': 130, 'll_memcmp.0': 16, 'll_me
 _ELEM_NAMES = ['int', 'T', 'int[N] (array of arrays, inner bound dependent)', 'int[C] (array of arrays, inner bound literal)']
 
 
-def _subst(k, bounds_mask=15, suffix=''):
-    return dict(id='c06_subst_array_e%d%s' % (k, suffix), property='C06', src='c06_subst_array.cxx', entry='harness_c06_subst_array',
-                tus=_SUBST_TUS, cut=_CUT + ['_ZNKSt4lessIP14CPPDeclarationEclES1_S1_'],
-                tuflags=['-fno-inline', '-fno-pic'], models=['noinline.c'], skip_ctors=[x.split('/')[-1] for x in _SUBST_TUS],
-                desc='CPPArrayType::substitute_decl (template instantiation): member arrays of template<class T, int N> struct S '
-                     'instantiated as S<float, V>; element type ' + _ELEM_NAMES[k],
-                domain='element type ' + _ELEM_NAMES[k] + ' x bound in {literal C, parameter N, unrelated variable M, none} '
-                       '(concrete loop: 4 object graphs in one query); V and C symbolic over all of int; instantiation map '
-                       '{T -> float, N -> V}; std::less<CPPDeclaration *> (address order of the std::map) fixed to first-seen order',
-                oracle='the bound evaluates (real CPPExpression::evaluate) to V where N was written and to C where C was written, the '
-                       'element type is float where T was written, the result is the template\'s own type object exactly when '
-                       'nothing depended on a parameter, the template\'s own type is unmodified, a second substitution returns '
-                       'the same type',
-                bounds={'quick': {'defs': {'ELEMS': 1 << k, 'BOUNDS': bounds_mask}, 'unwind': 8, 'unwindset': _SUBST_LOOPS, 'cap': 600}})
+_BOUND_NAMES = ['the literal C', 'the template parameter N', 'an unrelated variable M', 'none ([])']
+_SUBST_QUICK = [(0, 0), (0, 1), (0, 2), (0, 3), (1, 0), (1, 1), (2, 0), (3, 1)]
 
 
-HARNESSES += [_subst(k) for k in range(4)] + [_subst(0, 1 << b, '_dbg%d' % b) for b in range(4)] + [
+# one object graph per query: with several graphs in one query CBMC's symbolic execution stalls in its value-set simplifier
+def _subst(ek, bk):
+    d = dict(id='c06_subst_array_e%db%d' % (ek, bk), property='C06', src='c06_subst_array.cxx', entry='harness_c06_subst_array',
+             tus=_SUBST_TUS, cut=_CUT + ['_ZNKSt4lessIP14CPPDeclarationEclES1_S1_'],
+             tuflags=['-fno-inline', '-fno-pic'], models=['noinline.c'], skip_ctors=[x.split('/')[-1] for x in _SUBST_TUS],
+             desc='CPPArrayType::substitute_decl (template instantiation): member array of template<class T, int N> struct S '
+                  'instantiated as S<float, V>; element type %s, bound %s' % (_ELEM_NAMES[ek], _BOUND_NAMES[bk]),
+             domain='element type %s, bound %s (one concrete object graph per entry; all 16 combinations of 4 element types x 4 bounds '
+                    'in the thorough tier, 8 in the quick tier); V and C symbolic over all of int; instantiation map {T -> float, '
+                    'N -> literal V}; std::less<CPPDeclaration *> (address order of the std::map) fixed to first-seen order'
+                    % (_ELEM_NAMES[ek], _BOUND_NAMES[bk]),
+             oracle='the bound evaluates (real CPPExpression::evaluate) to V where N was written and to C where C was written, the '
+                    'element type is float where T was written, the result is the template\'s own type object exactly when '
+                    'nothing depended on a parameter, the template\'s own type is unmodified, a second substitution returns '
+                    'the same type',
+             bounds={'quick': {'defs': {'ELEMS': 1 << ek, 'BOUNDS': 1 << bk}, 'unwind': 8, 'unwindset': _SUBST_LOOPS, 'cap': 600}})
+    if (ek, bk) not in _SUBST_QUICK:
+        d['tiers'] = ('thorough',)
+    return d
+
+
+HARNESSES += [_subst(ek, bk) for ek in range(4) for bk in range(4)] + [
     dict(id='c06_scope_lookup', property='C06', src='c06_scope_lookup.cxx', entry='harness_c06_scope_lookup', tus=_SCOPE_TUS,
          cut=_CUT + [_TYPES_FIND],
          skip_ctors=[x.split('/')[-1] for x in _SCOPE_TUS],
@@ -126,11 +135,18 @@ HARNESSES += [_subst(k) for k in range(4)] + [_subst(0, 1 << b, '_dbg%d' % b) fo
 PROPERTY_INFO = {'C06': {'level': 'model_checking',
          'explanation': 'bounded symbolic execution (CBMC) of the real type printers (output_instance of pointer, reference, const, '
                         'array and simple types) and of CPPInstanceIdentifier::unroll_type; the printed declaration is read back by '
-                        'an independent recursive-descent reader of C declarators',
+                        'an independent recursive-descent reader of C declarators; CPPArrayType::substitute_decl (array types '
+                        'in template instantiations) with symbolic bounds; CPPScope::find_type on a class/namespace graph with '
+                        'symbolic declaration sites against the C++ unqualified-lookup order',
          'outside': 'zero-error parsing of valid translation units and of the shipped stub headers; name lookup through '
-                    'namespaces/using/shadowing; template instantiation; typedef targets; function and member-pointer declarators; '
+                    'using-directives/declarations, shadowing by non-type names and qualified names (unqualified type lookup through '
+                    'class, base classes and enclosing scopes is covered on one concrete graph); template instantiation other than '
+                    'array types (substitute_decl of the other type classes); typedef targets; function declarators; '
                     'volatile; the bison actions that build the modifier list',
          'assumptions': ['CPPType::new_type (uniquing of equal types in a static std::set) is replaced by the identity',
-                         'iostream model models/stream.c; std::ostringstream as an opaque token stream whose str() renders decimal']}}
+                         'iostream model models/stream.c; std::ostringstream as an opaque token stream whose str() renders decimal',
+                         'c06_subst_array_*: std::less<CPPDeclaration*> (address order of the substitution map) replaced by a fixed '
+                         'first-seen order for the encoded run; c06_scope_lookup: std::map<string,CPPType*>::find replaced by an in-order '
+                         'scan with the same contract (native replays use the real ones)']}}
 
 NOT_APPLICABLE = {}
